@@ -476,7 +476,7 @@ Definition check_lm_iters (co : list (Q * Q * Q)) (x0 : Q) (nu0 : Q) (obs : list
    float) with its own nu_i (nu takes only the values |g_0| 2^k, nu0 2^k and 0, which are exact in floating point), so no
    rational blow-up and no drift; it must reproduce the matrix handed to the linear solver, whether nu is zero, and the
    next point x_{i+1}.  When a branch decision of the step is within rounding of flipping (the gain ratio within 1e-6 of
-   0, 1/4, 3/4; f - ftemp in the cancellation regime |num| <= 1e-9 |f|; nu/2 within 1e-9 of nu0; the user's residual
+   0, 1/4, 3/4; f - ftemp in the cancellation regime |num| <= 1e-9 |f|; the user's residual
    polynomial itself evaluated with >= 6 digits of cancellation at the current or the trial point) the float run may
    legitimately take the other branch and the comparison of this trace ends there. *)
 Definition q_half_sq := half_sq Qc 0%Qc 1%Qc Qcplus Qcmult Qcdiv.
@@ -503,8 +503,9 @@ Definition lm_undecidable (co : list (Qc * Qc * Qc)) (nu0 : Qc) (st : q_lm_state
   let ratio := lm_ratio Qc 0%Qc 1%Qc Qcplus Qcmult Qcminus Qcopp Qcdiv qc_leb (lm_f Qc st) ftemp x xtemp (lm_g Qc st) in
   quad_cancels co x || quad_cancels co xtemp
   || Qle_bool (Qabs (this num)) ((1 # 1000000000) * Qabs (this (lm_f Qc st)))
-  || q_near ratio 0 (1 # 1000000) || q_near ratio (1 # 4) (1 # 1000000) || q_near ratio (3 # 4) (1 # 1000000)
-  || Qle_bool (Qabs (this nu / 2 - this nu0)) ((1 # 1000000000) * this nu0).
+  || q_near ratio 0 (1 # 1000000) || q_near ratio (1 # 4) (1 # 1000000) || q_near ratio (3 # 4) (1 # 1000000).
+  (* no margin on `nu/2 < nu0`: nu only takes the values |g0| 2^k, nu0 2^k, 0, exact in floating point, so that comparison
+     is decided identically by the float run -- including the boundary nu/2 == nu0 (corpus cell nu-halves-onto-nu0) *)
 Definition m11 (M : list (list Qc)) : Qc := match M with [[a]] => a | _ => 0%Qc end.
 Fixpoint check_lm_trace (co : list (Qc * Qc * Qc)) (nu0 nu : Qc) (xs : list Q) (Ms : list (Q * bool)) : bool :=
   match xs with
